@@ -5934,10 +5934,16 @@ func (a *Agent) TaskDispatch(RequestID uint32, CommandID uint32, Parser *parser.
 							} else if Type == SOCKET_TYPE_REVERSE_PROXY {
 
 								/* check if there is a socket with that socks proxy id */
-								if Socket := a.SocksClientGet(SocktID); Socket != nil && Socket.Conn != nil {
+								var SocketConn net.Conn
+								if Socket := a.SocksClientGet(SocktID); Socket != nil {
+									/* the relay reader may close the client (and clear Conn) at any time */
+									SocketConn = Socket.Conn
+								}
+
+								if SocketConn != nil {
 
 									/* write the data to socks proxy */
-									_, err := Socket.Conn.Write(Data)
+									_, err := SocketConn.Write(Data)
 									if err != nil {
 										a.Console(teamserver.AgentConsole, "Erro", fmt.Sprintf("Failed to write to socks proxy %v: %v", SocktID, err), "")
 
